@@ -391,7 +391,12 @@ func genConSession(r *rand.Rand, i int) J {
 	}
 	c["ops"] = ops
 	// an include served from the engine's cache, while other goroutines add to the cache
-	c["cache"] = []any{[]any{bs("zz_cached_inc.liq"), []any{nText("[inc:"), nObj(eVar("s")), nText("]")}}}
+	// (the cached source includes another cached source, and that one a third)
+	c["cache"] = []any{
+		[]any{bs("zz_cached_inc.liq"), []any{nText("[inc:"), nObj(eVar("s")), J{"t": "include", "e": eLit(vStr("zz_cached_inc2.liq"))}, nText("]")}},
+		[]any{bs("zz_cached_inc2.liq"), []any{nText("="), J{"t": "include", "e": eLit(vStr("zz_cached_inc3.liq"))}, nObj(eVar("n")), nText(";")}},
+		[]any{bs("zz_cached_inc3.liq"), []any{nText("3"), nObj(eFilter(eVar("s"), "size"))}},
+	}
 	templates = append(templates, []any{nText("("), J{"t": "include", "e": eLit(vStr("zz_cached_inc.liq"))}, nText(")")})
 	c["templates"] = templates
 	for k := 0; k < 12; k++ {
